@@ -173,6 +173,8 @@ class G16:
                     self.nonblock = True
             else:
                 self.block(sc, depth + 1)
+                if r.chance(35):
+                    self.block(sc, depth + 1)       # a sibling BLOCK right behind: same parent, separate tables
 
     def block(self, sc, depth):
         r = self.r
@@ -266,6 +268,20 @@ def build(rnd, tier, flags):
     for rid, nm, sc, exp in g.refs:
         status.setdefault(nm, set()).add(bool(exp))
     maxd = max([sc.depth() for _, _, sc, _ in g.refs] + [0])
+    r = g.r
+    if r.chance(40):
+        # several statements per line: scoping statements of different regions may share a line number
+        heavy = r.chance(50)
+        joined = []
+        unit_kw = re.compile(r"\s*(module|submodule|program|subroutine|function|contains|end\s*$|end\s*(module|submodule|"
+                             r"program|subroutine|function)\b)", re.I)
+        for ln in g.lines:
+            if (joined and not unit_kw.match(ln) and not unit_kw.match(joined[-1].split(";")[-1])
+                    and not re.match(r"\s*\d", ln) and r.chance(80 if heavy else 25)):
+                joined[-1] += r.pick(["; ", ";", " ; "]) + ln
+            else:
+                joined.append(ln)
+        g.lines = joined
     case = {"src": "\n".join(g.lines) + "\n", "scopes": [scope_json(s) for s in g.tops], "refs": refs,
             "meta": {"max_depth": maxd, "mixed_status": any(len(v) == 2 for v in status.values()),
                      "nonblock_do": g.nonblock}}
